@@ -61,6 +61,10 @@ ASSUMPTIONS = [
 
 SCRATCH = os.path.join(os.path.dirname(os.path.dirname(os.path.abspath(__file__))), ".scratch")
 KEYS = ["a", "aa", "ab", "ba", "b", "A", "r1", "r10", "r11", "x_1", "json1", "fasta", "tsv1", "nc", "s1", "k_a"]
+# identifiers with interior dots (the part after the last dot is NOT a format suffix); drawn together with their stems
+DOTTED_KEYS = ["g", "g.1", "g.2", "a.b", "A.FASTA", "r1.x"]
+SUFFIX_LIKE = {"fasta", "json", "tsv", "txt", "gz"}
+LOADED = ("store", "members", "paths", "pathobjs", "db")  # presentations that start the composition with a loader
 SUFFIX = {"seqs": "fasta", "dict": "txt", "tab": "tsv"}
 WRITERS = {
     "seqs": ["write_seqs:dir", "write_seqs:dir", "write_seqs:sqlite", "write_json:dir", "write_db:sqlite"],
@@ -79,12 +83,20 @@ def cases(draw, mode):
     family = draw(st.sampled_from(fams if mode == "owned" else fams[::-1]))
     lo, hi = (1, 12) if mode == "owned" else (3, 8)
     n = draw(st.integers(lo, hi))
-    keys = draw(st.lists(st.sampled_from(KEYS), min_size=n, max_size=n, unique=True))
+    pool = KEYS + DOTTED_KEYS * 2 if draw(st.integers(0, 3)) == 0 else KEYS
+    keys = draw(st.lists(st.sampled_from(pool), min_size=n, max_size=n, unique=True))
     if family == "dict":
         present = draw(st.sampled_from(["plain", "plain", "attr", "store", "paths"]))
+    elif family == "seqs":
+        # "objs": in-memory collections naming their origin in info.source; "db": a sqlite store read by load_db
+        present = draw(st.sampled_from(["store", "members", "paths", "pathobjs", "objs", "db"]))
     else:
         present = draw(st.sampled_from(["store", "members", "paths", "pathobjs"]))
-    from_files = present in ("store", "members", "paths", "pathobjs")
+    if present == "db":
+        # members of a sqlite store carry no format suffix: a dotted one would be read as "stem.suffix" by get_unique_id
+        keys = [k if "." not in k else KEYS[i] for i, k in enumerate(keys)]
+        keys = keys if len(set(keys)) == len(keys) else KEYS[: len(keys)]
+    from_files = present in LOADED
     nsteps = draw(st.integers(1, 3))
     layout = [f"step{i}" for i in range(1, nsteps + 1)]
     if draw(st.integers(0, 3)) == 0:
@@ -95,8 +107,14 @@ def cases(draw, mode):
         kinds += ["falsy"] * 2
     if wrong_ok:
         kinds += ["wrong"] * 2
+    # a value the WRITER cannot write (it raises inside the writer's main): produced by the last step only
+    last_kinds = list(kinds)
+    if draw(st.integers(0, 9)) < 3:
+        last_kinds += ["unwritable"] * 3 + (["unjson"] * 2 if family == "dict" else [])
     outcomes = []
-    for _ in range(nsteps):
+    for step_no in range(nsteps):
+        if step_no == nsteps - 1:
+            kinds = last_kinds
         col = {}
         for i, k in enumerate(keys):
             # real-executor cases are few: rotate the list so that even Hypothesis' simplest example mixes fates
@@ -106,10 +124,13 @@ def cases(draw, mode):
                 col[k] = o
         outcomes.append(col)
     bad = []
-    if from_files and draw(st.integers(0, 2)) == 0:
+    if from_files and present != "db" and draw(st.integers(0, 2)) == 0:
         bad = sorted(draw(st.sets(st.sampled_from(keys), max_size=max(1, n // 3))))
     writer = draw(st.sampled_from(WRITERS[family]))
     source_style = draw(st.sampled_from(["{k}.json", "sub/{k}.json", "{k}", "{k}.txt.gz"])) if not from_files else None
+    if source_style == "{k}" and any("." in k for k in keys):
+        # a bare dotted source has no format suffix: get_unique_id would read the end of the name as one
+        source_style = "{k}.json"
     if mode == "owned":
         execution = draw(st.sampled_from(["serial", "owned", "owned", "owned", "owned"]))
         delays = {}
@@ -155,7 +176,7 @@ def fold(case):
     """
     family = case["family"]
     wname = case["writer"].split(":")[0]
-    has_loader = case["present"] in ("store", "members", "paths", "pathobjs")
+    has_loader = case["present"] in LOADED
     value_has_source = family != "tab"  # load_tabular does not record the source on the table
     fates = {}
     for key in case["keys"]:
@@ -186,7 +207,19 @@ def fold(case):
                 state = {"status": "N", "type": "BUG", "origin": origin, "kind": "none", "step": idx, "src_circ": circ}
             elif o == "nc":
                 state = {"status": "N", "type": "FAIL", "origin": origin, "kind": "nc", "step": idx, "src_circ": circ}
+            elif o == "unwritable":
+                state = {"status": "C", "trace": state["trace"] + [idx], "falsy": False, "unw": "all"}
+            elif o == "unjson":
+                state = {"status": "C", "trace": state["trace"] + [idx], "falsy": False, "unw": "json"}
         state["pre_writer"] = dict(state)
+        if state.get("unw") == "all" or (state.get("unw") == "json" and wname == "write_json"):
+            # the writer's own main raises: one failed record, named after the writer
+            pre = state["pre_writer"]
+            kind = "unwritable" if state["unw"] == "all" else "unjson"
+            state = {"status": "N", "type": "ERROR", "origin": wname, "kind": kind, "step": "writer", "src_circ": "writer-exception", "pre_writer": pre}
+            if wname == "write_db":
+                # the default serialiser of write_db is itself a composition, the failure may be named after its steps
+                state["origins"] = ("write_db", "to_primitive", "pickle_it")
         if state.get("wrong") and wname in TYPED_WRITERS:
             pre = state["pre_writer"]
             state = {"status": "N", "type": "ERROR", "origin": wname, "kind": "wrong", "step": "writer", "src_circ": "wrong-type-value", "pre_writer": pre}
@@ -199,13 +232,18 @@ def expected_value(case, key, fate):
     family = case["family"]
     if fate.get("wrong"):
         return {"wrong": 7}
+    if fate.get("unw") == "all":
+        return {"unwritable": key}
     if family == "seqs":
         seqs = {f"k_{key}": "ACGTAC", "other": "ACGT"}
         for i in fate["trace"]:
             seqs[f"s{i}"] = "ACGT" * i
         return {"seqs": seqs}
     if family == "dict":
-        return {"rec": {"key": key, "trace": list(fate["trace"]), "source": rec_source(case, key), "falsy": fate["falsy"]}}
+        rec = {"key": key, "trace": list(fate["trace"]), "source": rec_source(case, key), "falsy": fate["falsy"]}
+        if fate.get("unw") == "json":
+            rec["unw"] = {key}
+        return {"rec": rec}
     header = ["key", "v"] + [f"s{i}" for i in fate["trace"]]
     rows = [[key, str(r + 1)] + [str(i * 10 + r) for i in fate["trace"]] for r in range(2)]
     return {"table": {"header": header, "rows": rows}}
@@ -217,9 +255,14 @@ def rec_source(case, key):
     return case["source_style"].format(k=key)
 
 
-def message_ok(kind, key, step, msg):
+def message_ok(kind, key, step, msg, wname=None):
     if not isinstance(msg, str):
         return False
+    if kind == "unwritable":
+        # write_db serialises through its own sub-composition, which captures the exception: any traceback text
+        return bool(msg.strip()) if wname == "write_db" else f"unwritable:{key}" in msg
+    if kind == "unjson":
+        return "TypeError" in msg
     if kind == "raise":
         return f"ValueError: boom:{key}:{step}" in msg
     if kind == "none":
@@ -244,6 +287,8 @@ def canon_live(s: Soft, tag, obj):
 
     if isinstance(obj, NotCompleted):
         return {"nc": {"type": obj.type, "origin": obj.origin, "message": obj.message, "source": obj.source}}
+    if getattr(obj, "c14_unwritable", False):
+        return {"unwritable": obj.c14_key()}
     if isinstance(obj, int) and not isinstance(obj, bool):
         return {"wrong": obj}
     if isinstance(obj, dict):
@@ -364,6 +409,19 @@ class OwnedSchedule:
 def write_inputs(case, indir):
     family = case["family"]
     os.makedirs(indir, exist_ok=True)
+    if case["present"] == "db":
+        from cogent3 import make_unaligned_seqs
+        from cogent3.app import io as io_app
+        from cogent3.app.sqlite_data_store import DataStoreSqlite
+
+        store = DataStoreSqlite(os.path.join(indir, "in.sqlitedb"), mode="w")
+        writer = io_app.write_db(data_store=store)
+        for key in case["keys"]:
+            seqs = make_unaligned_seqs({f"k_{key}": "ACGTAC", "other": "ACGT"}, moltype="dna", info={"source": f"{key}.fasta"})
+            writer.main(seqs, identifier=key)
+        store.unlock(force=True)
+        store.close()
+        return
     for key in case["keys"]:
         bad = key in case["bad"]
         path = os.path.join(indir, f"{key}.{SUFFIX[family]}")
@@ -377,7 +435,7 @@ def write_inputs(case, indir):
             f.write(text)
 
 
-def make_inputs(case, indir):
+def make_inputs(case, indir, stores=None):
     """(what is handed to apply_to / as_completed, list of (key, single input) for solo calls)"""
     from cogent3.app.data_store import DataStoreDirectory
 
@@ -389,6 +447,19 @@ def make_inputs(case, indir):
         klass = H.C14Rec if present == "plain" else H.C14Src
         objs = [klass(key=k, trace=[], source=rec_source(case, k), falsy=False) for k in keys]
         return objs, list(zip(keys, objs))
+    if present == "objs":
+        from cogent3 import make_unaligned_seqs
+
+        objs = [make_unaligned_seqs({f"k_{k}": "ACGTAC", "other": "ACGT"}, moltype="dna", info={"source": rec_source(case, k)}) for k in keys]
+        return objs, list(zip(keys, objs))
+    if present == "db":
+        from cogent3.app.sqlite_data_store import DataStoreSqlite
+
+        store = DataStoreSqlite(os.path.join(indir, "in.sqlitedb"), mode="r")
+        if stores is not None:
+            stores.append(store)
+        by_key = {m.unique_id: m for m in store.completed}
+        return store, [(k, by_key[k]) for k in [m.unique_id for m in store.completed]]
     sfx = SUFFIX[family]
     if present in ("store", "members"):
         store = DataStoreDirectory(indir, mode="r", suffix=sfx)
@@ -411,7 +482,9 @@ def build_chain(case, with_delays=False):
 
     family = case["family"]
     app = None
-    if case["present"] in ("store", "members", "paths", "pathobjs"):
+    if case["present"] == "db":
+        app = io_app.load_db()
+    elif case["present"] in LOADED:
         app = {"seqs": lambda: io_app.load_unaligned(moltype="dna"), "dict": H.c14_load_rec, "tab": io_app.load_tabular}[family]()
     first_step = True
     for item in case["layout"]:
@@ -496,18 +569,39 @@ def execute(case) -> Soft:
     return s
 
 
-def call_app(s: Soft, sig, fn, *args):
+_WRITER_FAILURE_MARKS = ("unwritable:", "is not JSON serializable", "can only checksum")
+
+
+def call_app(s: Soft, sig, fn, *args, unwritable=False):
     """s.call for entry points that run the harness steps: an exception the steps raise ON PURPOSE (a record's
     generated failure) that escapes from cogent3 is a violation of 'never raises because a record fails', although
-    its innermost frame is harness code"""
+    its innermost frame is harness code.
+
+    unwritable: some record of the case cannot be written by the writer; the exception the writer raised for it
+    escaping from apply_to is ONE root cause whatever the writer, reported under one signature"""
+    from vlib.core import raised_in_repo
+
     try:
+        if unwritable:
+            try:
+                return True, fn(*args)
+            except Exception as e:  # noqa: BLE001
+                text = str(e)
+                if any(m in text for m in _WRITER_FAILURE_MARKS) and (text.startswith("unwritable:") or raised_in_repo(e)):
+                    s.fail(f"{sig}/writer-exception-escaped", f"{type(e).__name__}: {text[:300]}")
+                    return False, e
+                return s.call(sig, _reraise, e)
         return s.call(sig, fn, *args)
     except Exception as e:  # noqa: BLE001
         text = str(e)
-        if text.startswith(("boom:", "unreadable:")) or "boom:" in text[:200]:
+        if text.startswith(("boom:", "unreadable:", "unwritable:")) or "boom:" in text[:200]:
             s.fail(f"{sig}/record-failure-escaped:{type(e).__name__}", f"{type(e).__name__}: {text[:300]}")
             return False, e
         raise
+
+
+def _reraise(e):
+    raise e
 
 
 def _par_kw(case):
@@ -530,13 +624,15 @@ def _run(s: Soft, case, root, stores):
     keys = case["keys"]
     n = len(keys)
     indir = os.path.join(root, "in")
-    from_files = case["present"] in ("store", "members", "paths", "pathobjs")
+    from_files = case["present"] in LOADED
     if from_files:
         write_inputs(case, indir)
     fates = fold(case)
     n_fail = sum(1 for f in fates.values() if f["status"] == "N")
     n_ok = n - n_fail
     inv = inversions(case["order"]) if execution == "owned" else 0
+    unwritable = any(f["status"] == "N" and f["step"] == "writer" and f["kind"] in ("unwritable", "unjson") for f in fates.values())
+    dotted = any("." in k for k in keys)
 
     # ---- coverage classes
     s.cls(f"family:{family}", f"present:{case['present']}", f"writer:{wname}", f"store:{skind}", f"exec:{execution}")
@@ -545,12 +641,18 @@ def _run(s: Soft, case, root, stores):
     if "obs" in case["layout"]:
         s.cls("with-observer")
     for f in fates.values():
-        s.cls("fate:" + ("completed-wrong-value" if f.get("wrong") else "completed-falsy" if f.get("falsy") else "completed" if f["status"] == "C" else f"nc-{f['kind']}" + ("-at-writer" if f["step"] == "writer" else "")))
+        s.cls("fate:" + ("completed-wrong-value" if f.get("wrong") else "completed-falsy" if f.get("falsy") else "completed-unjson-value" if f.get("unw") else "completed" if f["status"] == "C" else f"nc-{f['kind']}" + ("-at-writer" if f["step"] == "writer" else "")))
         if f["status"] == "N" and f["step"] not in ("writer",) and isinstance(f["step"], int):
             later = [x for x in case["layout"] if x != "obs" and int(x[4:]) > f["step"]]
             if later:
                 s.cls("nc-passes-through-later-steps")
     s.cls("failures:none" if n_fail == 0 else "failures:all" if n_ok == 0 else "failures:mixed")
+    if dotted:
+        s.cls("ids:dotted", f"ids:dotted/store:{skind}")
+        if any(k2.startswith(k + ".") for k in keys for k2 in keys):
+            s.cls("ids:dotted-with-stem-or-sibling")
+    if unwritable and n_ok:
+        s.cls("unwritable-record-among-writable")
     if execution == "owned":
         s.cls("kendall:0" if inv == 0 else "kendall:1-2" if inv <= 2 else "kendall:3-9" if inv <= 9 else "kendall:10+")
     if execution == "loky":
@@ -564,7 +666,7 @@ def _run(s: Soft, case, root, stores):
     par_kw = _par_kw(case) if parallel else None
 
     # ---- (a) every input alone
-    inputs, singles = make_inputs(case, indir)
+    inputs, singles = make_inputs(case, indir, stores)
     solo_app = build_chain(case)
     solo = {}
     for key, x in singles:
@@ -583,7 +685,7 @@ def _run(s: Soft, case, root, stores):
 
     # ---- (b) as_completed on the composition (no writer)
     ac_app = build_chain(case, with_delays=execution == "loky")
-    ac_inputs, ac_singles = make_inputs(case, indir)
+    ac_inputs, ac_singles = make_inputs(case, indir, stores)
     ac_keys = [k for k, _ in ac_singles]  # submission order
 
     def run_ac():
@@ -651,7 +753,9 @@ def _run(s: Soft, case, root, stores):
     logger = None if case["logger"] else False
 
     def run_apply():
-        return call_app(s, pre + "apply_to", lambda: app.apply_to(inputs, parallel=parallel, par_kw=par_kw, logger=logger, show_progress=False))
+        # a distinct clause for cases holding a record the writer cannot write (see call_app)
+        sig = pre + "apply_to" + ("/unwritable-record" if unwritable else "")
+        return call_app(s, sig, lambda: app.apply_to(inputs, parallel=parallel, par_kw=par_kw, logger=logger, show_progress=False), unwritable=unwritable)
 
     (ok, ds), sched = scheduled(run_apply)
     if sched is not None:
@@ -665,10 +769,11 @@ def _run(s: Soft, case, root, stores):
     if execution == "loky" or first is None:
         return
     del H.CALLS[:]
-    inputs2, _ = make_inputs(case, indir)
+    inputs2, _ = make_inputs(case, indir, stores)
 
     def run_again():
-        return call_app(s, pre + "second-apply_to", lambda: app.apply_to(inputs2, parallel=parallel, par_kw=par_kw, logger=logger, show_progress=False))
+        sig = pre + "second-apply_to" + ("/unwritable-record" if unwritable else "")
+        return call_app(s, sig, lambda: app.apply_to(inputs2, parallel=parallel, par_kw=par_kw, logger=logger, show_progress=False), unwritable=unwritable)
 
     (ok, ds2), sched = scheduled(run_again)
     if not ok:
@@ -699,12 +804,19 @@ def check_against_model(s: Soft, tag, case, key, fate, val):
 def check_nc_fields(s: Soft, tag, case, key, fate, nc, stored=False):
     kind = fate["kind"]
     brief = _brief({key: fate})
-    s.eq(nc["origin"], fate["origin"], f"{tag}/nc-origin/{kind}", f"input {key!r} ({brief})")
+    if "origins" in fate:
+        s.check(nc["origin"] in fate["origins"], f"{tag}/nc-origin/{kind}", f"input {key!r} ({brief}): origin {nc['origin']!r} not in {fate['origins']}")
+    else:
+        s.eq(nc["origin"], fate["origin"], f"{tag}/nc-origin/{kind}", f"input {key!r} ({brief})")
     s.eq(nc["type"], fate["type"], f"{tag}/nc-type/{kind}", f"input {key!r} ({brief})")
-    s.check(message_ok(kind, key, fate["step"], nc["message"]), f"{tag}/nc-message/{kind}", f"input {key!r} ({brief}): message {nc['message']!r:.300}")
+    s.check(message_ok(kind, key, fate["step"], nc["message"], case["writer"].split(":")[0]), f"{tag}/nc-message/{kind}", f"input {key!r} ({brief}): message {nc['message']!r:.300}")
     if stored or fate["src_circ"] == "ok":
         # a live NotCompleted can only know what the failing value carried; the record in the store must name the source
-        s.eq(nc["source"], input_source_name(case, key), f"{tag}/nc-source/{fate['src_circ']}", f"input {key!r} ({_brief({key: fate})}): source recorded in the NotCompleted")
+        want = input_source_name(case, key)
+        if case["present"] == "db" and nc["source"] == key:
+            # a record of a sqlite store has two names: the member it was read from and the info.source it carries
+            want = key
+        s.eq(nc["source"], want, f"{tag}/nc-source/{fate['src_circ']}", f"input {key!r} ({_brief({key: fate})}): source recorded in the NotCompleted")
 
 
 def check_store(s: Soft, tag, case, store, outdir, fates, solo, stores):
@@ -715,42 +827,72 @@ def check_store(s: Soft, tag, case, store, outdir, fates, solo, stores):
     if ok:
         stores.append(ro)
         fresh = observe(s, f"{tag}/reopened", case, ro)
+    # circumstance tags: identifiers with an interior dot (and the stems / siblings they could be confused with) and
+    # records the writer cannot write are judged under their own signatures, so that what holds for the other
+    # records of the same case stays visible next to them
+    dotted_keys = [k for k in fates if "." in k]
+
+    def dotted_tag(d):
+        # an end that reads as a format suffix when lower-cased (A.FASTA) is a circumstance of its own
+        return f"/suffix-like-id@{skind}" if d.rsplit(".", 1)[1].lower() in SUFFIX_LIKE else f"/dotted-id@{skind}"
+
+    def circ_of(name):
+        f = fates.get(name)
+        if f is not None and f["status"] == "N" and f["step"] == "writer" and f["kind"] in ("unwritable", "unjson"):
+            return "/unwritable-record"
+        if "." in name:
+            return dotted_tag(name)
+        tags = sorted({dotted_tag(d) for d in dotted_keys if d.startswith(name + ".")})
+        return tags[0] if tags else ""
+
     for view, snap in (("live", live), ("reopened", fresh)):
         if snap is None:
             continue
-        vt = f"{tag}/{view}"
-        wantC = sorted(k for k, f in fates.items() if f["status"] == "C")
-        wantN = sorted(k for k, f in fates.items() if f["status"] == "N")
-        dup = {lab: {k: len(v) for k, v in snap[lab].items() if len(v) > 1} for lab in ("C", "N")}
-        s.check(not dup["C"] and not dup["N"], f"{vt}/duplicate-records", f"{dup}")
-        both = sorted(set(snap["C"]) & set(snap["N"]))
-        s.check(not both, f"{vt}/completed-and-not-completed", f"{both}")
-        stray = sorted((set(snap["C"]) | set(snap["N"])) - set(fates))
-        s.check(not stray, f"{vt}/record-under-foreign-identifier", f"{stray}; inputs {sorted(fates)}")
-        missing = sorted(set(fates) - set(snap["C"]) - set(snap["N"]))
-        s.check(not missing, f"{vt}/input-without-record", f"{missing}")
-        s.eq(sorted(snap["C"]), wantC, f"{vt}/completed-membership", f"fates {_brief(fates)}")
-        s.eq(sorted(snap["N"]), wantN, f"{vt}/not-completed-membership", f"fates {_brief(fates)}")
-        if view == "live" and fresh is not None:
-            continue  # content is compared once, on the persisted view
-        for key, fate in fates.items():
-            if fate["status"] == "C" and key in snap["C"]:
-                got = parse_completed(s, vt, wname, key, snap["C"][key][0])
-                if got is None:
-                    continue
-                s.eq(got, expected_value(case, key, fate), f"{vt}/completed-content-vs-model", f"record {key!r}")
-                if key in solo:
-                    s.eq(got, solo[key], f"{vt}/completed-content-vs-solo", f"record {key!r}")
-            elif fate["status"] == "N" and key in snap["N"]:
-                nc = parse_nc(s, vt, wname, key, snap["N"][key][0])
-                if nc is None:
-                    continue
-                check_nc_fields(s, vt, case, key, fate, nc, stored=True)
-                if key in solo and fate["step"] != "writer" and "nc" in solo[key]:
-                    drop = () if fate["src_circ"] == "ok" else ("source",)
-                    a = {k: v for k, v in nc.items() if k not in drop}
-                    b = {k: v for k, v in solo[key]["nc"].items() if k not in drop}
-                    s.eq(a, b, f"{vt}/not-completed-content-vs-solo/{fate['kind']}", f"record {key!r}")
+        for circ in ("", f"/dotted-id@{skind}", f"/suffix-like-id@{skind}", "/unwritable-record"):
+            vt = f"{tag}/{view}{circ}"
+            mine = {k: f for k, f in fates.items() if circ_of(k) == circ}
+            snapC = {k: v for k, v in snap["C"].items() if circ_of(k) == circ}
+            snapN = {k: v for k, v in snap["N"].items() if circ_of(k) == circ}
+            if not mine and not snapC and not snapN:
+                continue
+            wantC = sorted(k for k, f in mine.items() if f["status"] == "C")
+            wantN = sorted(k for k, f in mine.items() if f["status"] == "N")
+            if circ and not (sorted(snapC) == wantC and sorted(snapN) == wantN and all(len(v) == 1 for sn in (snapC, snapN) for v in sn.values())):
+                # one clause for the tagged circumstances (a misfiled record shows up as stray + missing + foreign content + ...)
+                got_all, want_all = set(snapC) | set(snapN), set(mine)
+                how = "missing-or-foreign" if got_all != want_all else "duplicate" if any(len(v) > 1 for sn in (snapC, snapN) for v in sn.values()) else "wrong-status"
+                s.fail(f"{vt}/membership:{how}", f"completed {sorted(snapC)} want {wantC}; not completed {sorted(snapN)} want {wantN}; fates {_brief(mine)}")
+                continue
+            dup = {lab: {k: len(v) for k, v in sn.items() if len(v) > 1} for lab, sn in (("C", snapC), ("N", snapN))}
+            s.check(not dup["C"] and not dup["N"], f"{vt}/duplicate-records", f"{dup}")
+            both = sorted(set(snapC) & set(snapN))
+            s.check(not both, f"{vt}/completed-and-not-completed", f"{both}")
+            stray = sorted((set(snapC) | set(snapN)) - set(mine))
+            s.check(not stray, f"{vt}/record-under-foreign-identifier", f"{stray}; inputs {sorted(fates)}")
+            missing = sorted(set(mine) - set(snapC) - set(snapN))
+            s.check(not missing, f"{vt}/input-without-record", f"{missing}; inputs {sorted(fates)}, completed {sorted(snap['C'])}, not completed {sorted(snap['N'])}")
+            s.eq(sorted(snapC), wantC, f"{vt}/completed-membership", f"fates {_brief(mine)}")
+            s.eq(sorted(snapN), wantN, f"{vt}/not-completed-membership", f"fates {_brief(mine)}")
+            if view == "live" and fresh is not None:
+                continue  # content is compared once, on the persisted view
+            for key, fate in mine.items():
+                if fate["status"] == "C" and key in snapC:
+                    got = parse_completed(s, vt, wname, key, snapC[key][0])
+                    if got is None:
+                        continue
+                    s.eq(got, expected_value(case, key, fate), f"{vt}/completed-content-vs-model", f"record {key!r}")
+                    if key in solo:
+                        s.eq(got, solo[key], f"{vt}/completed-content-vs-solo", f"record {key!r}")
+                elif fate["status"] == "N" and key in snapN:
+                    nc = parse_nc(s, vt, wname, key, snapN[key][0])
+                    if nc is None:
+                        continue
+                    check_nc_fields(s, vt, case, key, fate, nc, stored=True)
+                    if key in solo and fate["step"] != "writer" and "nc" in solo[key]:
+                        drop = () if fate["src_circ"] == "ok" else ("source",)
+                        a = {k: v for k, v in nc.items() if k not in drop}
+                        b = {k: v for k, v in solo[key]["nc"].items() if k not in drop}
+                        s.eq(a, b, f"{vt}/not-completed-content-vs-solo/{fate['kind']}", f"record {key!r}")
     return fresh or live
 
 
